@@ -344,27 +344,8 @@ Proof.
 Qed.
 Lemma unescape_sep x sep y : sep <> LT -> sep <> BSL -> unescape (x ++ sep :: y) = unescape x ++ sep :: unescape y.
 Proof. intros H1 H2. rewrite unescape_app_r by exact H1. now rewrite unescape_head. Qed.
-Theorem plain_of_sep sty a0 a sep b : inert sep ->
-  plain_of sty a0 (a ++ sep :: b) = plain_of sty a0 a ++ sep :: plain_of sty false b.
-Proof.
-  intros Hs. unfold plain_of. rewrite (wout_sep _ _ _ _ _ Hs). destruct Hs as (H1 & _ & _ & H4 & _). now apply unescape_sep.
-Qed.
-Lemma plain_of_nil sty a0 : plain_of sty a0 [] = [].
-Proof. reflexivity. Qed.
-Lemma plain_of_snoc sty a0 a sep : inert sep -> plain_of sty a0 (a ++ [sep]) = plain_of sty a0 a ++ [sep].
-Proof. intros Hs. now rewrite plain_of_sep, plain_of_nil. Qed.
-Lemma plain_of_cons sty b sep : inert sep -> plain_of sty false (sep :: b) = sep :: plain_of sty false b.
-Proof. intros Hs. pose proof (plain_of_sep sty false [] sep b Hs) as H. cbn [app] in H. now rewrite H, plain_of_nil. Qed.
-Lemma plain_of_inert_suffix sty a0 a : forall t, Forall inert t -> plain_of sty a0 (a ++ t) = plain_of sty a0 a ++ t.
-Proof.
-  intros t. revert a. induction t as [|c t IH]; intros a Ht; [now rewrite !app_nil_r|]. inversion Ht; subst.
-  replace (a ++ c :: t) with ((a ++ [c]) ++ t) by now rewrite <- app_assoc.
-  rewrite IH, plain_of_snoc, <- app_assoc by assumption. reflexivity.
-Qed.
-Lemma plain_of_inert_prefix sty : forall t b, Forall inert t -> plain_of sty false (t ++ b) = t ++ plain_of sty false b.
-Proof. induction t as [|c t IH]; intros b Ht; [reflexivity|]. inversion Ht; subst. cbn [app]. now rewrite plain_of_cons, IH. Qed.
 
-(* ---- line by line ---- *)
+(* ---- lists of lines ---- *)
 Definition no_nl' (s : str) : Prop := Forall (fun c => c <> NL) s.
 Lemma join_split : forall m, join_with NL (split_on NL m) = m.
 Proof.
@@ -394,26 +375,8 @@ Proof.
   change (join_with NL (l :: l2 :: ls)) with (l ++ NL :: join_with NL (l2 :: ls)).
   rewrite split_app_nl by exact Hl. now rewrite IH.
 Qed.
-Lemma plain_of_no_nl sty a0 s : no_nl' s -> no_nl' (plain_of sty a0 s).
-Proof. intros H. eapply deletes_P; [apply plain_of_deletes|exact H]. Qed.
 
-(* the undecorated rendering of a message whose position-0 rule is off (it does not end with a backslash) is the
-   rendering of its lines *)
-Lemma plain_of_join sty : forall ls, plain_of sty false (join_with NL ls) = join_with NL (map (plain_of sty false) ls).
-Proof.
-  induction ls as [|l ls IH]; [reflexivity|]. destruct ls as [|l2 ls]; [reflexivity|].
-  change (join_with NL (l :: l2 :: ls)) with (l ++ NL :: join_with NL (l2 :: ls)).
-  rewrite (plain_of_sep _ _ _ _ _ inert_nl), IH. reflexivity.
-Qed.
-Theorem plain_of_lines sty m : split_on NL (plain_of sty false m) = map (plain_of sty false) (split_on NL m).
-Proof.
-  rewrite <- (join_split m) at 1. rewrite plain_of_join. apply split_join.
-  - destruct (split_on NL m) eqn:E; [destruct (split_on_nonempty _ _ E)|discriminate].
-  - apply Forall_forall. intros x Hx. apply in_map_iff in Hx. destruct Hx as (l & <- & Hl).
-    apply plain_of_no_nl. pose proof (split_lines_no_nl m) as H. rewrite Forall_forall in H. auto.
-Qed.
-
-(* ================= F. lengths ================= *)
+(* ---- unescape and lengths ---- *)
 Lemma unescape_snoc_le : forall x c, length (unescape (x ++ [c])) <= S (length (unescape x)).
 Proof.
   induction x as [|a|a d r IHr IHd] using list_ind2; intros c.
@@ -440,39 +403,246 @@ Qed.
 Lemma unescape_suffix_le y z : length (unescape z) <= length (unescape (y ++ z)).
 Proof. induction y as [|c y IH]; [cbn [app]; lia|]. cbn [app]. pose proof (unescape_cons_ge c (y ++ z)). lia. Qed.
 
-(* reading one more character makes the output at most one longer *)
-Lemma plain_step_le sty a0 st c :
-  length (unescape (wout sty a0 (lex_step st c))) <= S (length (unescape (wout sty a0 st))).
+(* ---- a post-processor of the output: unescape (the rendering itself) or nothing (the rendering before unescape, which
+   is what the ANSI formatter's visible text is compared with) ---- *)
+Record post := {
+  pu : str -> str;
+  pu_nil : pu [] = [];
+  pu_sep : forall x sep y, inert sep -> pu (x ++ sep :: y) = pu x ++ sep :: pu y;
+  pu_snoc_le : forall x c, length (pu (x ++ [c])) <= S (length (pu x));
+  pu_app_ge : forall x y, length (pu x) <= length (pu (x ++ y));
+  pu_suffix_le : forall y z, length (pu z) <= length (pu (y ++ z));
+  pu_deletes : forall x, deletes x (pu x) }.
+Definition post_unescape : post.
 Proof.
-  destruct (wout_step sty a0 st c) as [->|[_ E]]; [apply unescape_snoc_le|]. rewrite E.
-  pose proof (unescape_app_ge (wout sty a0 (lex_step st c)) (raw_of (l_cand st))). lia.
+  refine {| pu := unescape |}; [reflexivity| |apply unescape_snoc_le|apply unescape_app_ge|apply unescape_suffix_le|apply deletes_unescape].
+  intros x sep y (H1 & _ & _ & H4 & _). now apply unescape_sep.
+Defined.
+Definition post_id : post.
+Proof.
+  refine {| pu := fun x => x |}; [reflexivity|reflexivity| | | |apply deletes_refl].
+  - intros x c. rewrite app_length. cbn. lia.
+  - intros x y. rewrite app_length. lia.
+  - intros y z. rewrite app_length. lia.
+Defined.
+
+Definition wout_of (sty : styles) (a0 : bool) (m : str) : str := wout sty a0 (fold_left lex_step m lex_init).
+Definition render (p : post) (sty : styles) (a0 : bool) (m : str) : str := pu p (wout_of sty a0 m).
+Lemma plain_of_render sty a0 m : plain_of sty a0 m = render post_unescape sty a0 m.
+Proof. reflexivity. Qed.
+
+Section Render.
+Variable p : post.
+Variable sty : styles.
+Theorem render_sep a0 a sep b : inert sep -> render p sty a0 (a ++ sep :: b) = render p sty a0 a ++ sep :: render p sty false b.
+Proof. intros Hs. unfold render, wout_of. rewrite (wout_sep _ _ _ _ _ Hs). now apply pu_sep. Qed.
+Lemma render_nil a0 : render p sty a0 [] = [].
+Proof. apply pu_nil. Qed.
+Lemma render_snoc a0 a sep : inert sep -> render p sty a0 (a ++ [sep]) = render p sty a0 a ++ [sep].
+Proof. intros Hs. now rewrite render_sep, render_nil. Qed.
+Lemma render_cons b sep : inert sep -> render p sty false (sep :: b) = sep :: render p sty false b.
+Proof. intros Hs. pose proof (render_sep false [] sep b Hs) as H. cbn [app] in H. now rewrite H, render_nil. Qed.
+Lemma render_inert_suffix a0 a : forall t, Forall inert t -> render p sty a0 (a ++ t) = render p sty a0 a ++ t.
+Proof.
+  intros t. revert a. induction t as [|c t IH]; intros a Ht; [now rewrite !app_nil_r|]. inversion Ht; subst.
+  replace (a ++ c :: t) with ((a ++ [c]) ++ t) by now rewrite <- app_assoc.
+  rewrite IH, render_snoc, <- app_assoc by assumption. reflexivity.
 Qed.
-Lemma plain_fold_le sty a0 y : forall st,
-  length (unescape (wout sty a0 (fold_left lex_step y st))) <= length (unescape (wout sty a0 st)) + length y.
+Lemma render_inert_prefix : forall t b, Forall inert t -> render p sty false (t ++ b) = t ++ render p sty false b.
+Proof. induction t as [|c t IH]; intros b Ht; [reflexivity|]. inversion Ht; subst. cbn [app]. now rewrite render_cons, IH. Qed.
+
+Theorem render_deletes a0 m : deletes m (render p sty a0 m).
+Proof.
+  unfold render, wout_of. eapply deletes_trans; [|apply pu_deletes].
+  apply (wout_fold_deletes sty a0 m lex_init [] lex_init_tagish). constructor.
+Qed.
+Lemma render_no_nl a0 s : no_nl' s -> no_nl' (render p sty a0 s).
+Proof. intros H. eapply deletes_P; [apply render_deletes|exact H]. Qed.
+Theorem render_le a0 x : length (render p sty a0 x) <= length x.
+Proof. apply deletes_length, render_deletes. Qed.
+
+(* a message whose position-0 rule is off (it does not end with a backslash) is rendered line by line *)
+Lemma render_join : forall ls, render p sty false (join_with NL ls) = join_with NL (map (render p sty false) ls).
+Proof.
+  induction ls as [|l ls IH]; [apply render_nil|]. destruct ls as [|l2 ls]; [reflexivity|].
+  change (join_with NL (l :: l2 :: ls)) with (l ++ NL :: join_with NL (l2 :: ls)).
+  rewrite (render_sep _ _ _ _ inert_nl), IH. reflexivity.
+Qed.
+Theorem render_lines m : split_on NL (render p sty false m) = map (render p sty false) (split_on NL m).
+Proof.
+  rewrite <- (join_split m) at 1. rewrite render_join. apply split_join.
+  - destruct (split_on NL m) eqn:E; [destruct (split_on_nonempty _ _ E)|discriminate].
+  - apply Forall_forall. intros x Hx. apply in_map_iff in Hx. destruct Hx as (l & <- & Hl).
+    apply render_no_nl. pose proof (split_lines_no_nl m) as H. rewrite Forall_forall in H. auto.
+Qed.
+
+(* reading one more character makes the output at most one longer *)
+Lemma render_step_le a0 st c : length (pu p (wout sty a0 (lex_step st c))) <= S (length (pu p (wout sty a0 st))).
+Proof.
+  destruct (wout_step sty a0 st c) as [->|[_ E]]; [apply pu_snoc_le|]. rewrite E.
+  pose proof (pu_app_ge p (wout sty a0 (lex_step st c)) (raw_of (l_cand st))). lia.
+Qed.
+Lemma render_fold_le a0 y : forall st,
+  length (pu p (wout sty a0 (fold_left lex_step y st))) <= length (pu p (wout sty a0 st)) + length y.
 Proof.
   induction y as [|c y IH]; intros st; cbn [fold_left length]; [lia|].
-  specialize (IH (lex_step st c)). pose proof (plain_step_le sty a0 st c). lia.
+  specialize (IH (lex_step st c)). pose proof (render_step_le a0 st c). lia.
 Qed.
-Theorem plain_of_app_le sty a0 x y : length (plain_of sty a0 (x ++ y)) <= length (plain_of sty a0 x) + length y.
-Proof. unfold plain_of. rewrite fold_left_app. apply plain_fold_le. Qed.
-Theorem plain_of_le sty a0 x : length (plain_of sty a0 x) <= length x.
-Proof. apply deletes_length, plain_of_deletes. Qed.
+Theorem render_app_le a0 x y : length (render p sty a0 (x ++ y)) <= length (render p sty a0 x) + length y.
+Proof. unfold render, wout_of. rewrite fold_left_app. apply render_fold_le. Qed.
+End Render.
 
 (* the position-0 rule can only keep a tag *)
 Lemma wout_a0 sty a0 st : exists y, wout sty a0 st = y ++ wout sty false st.
 Proof.
   unfold wout. destruct (l_done st) as [|[pre t] r]; [exists []; reflexivity|]. cbn [plain_segs].
-  rewrite (plain_segs_later sty a0 false r). destruct pre as [|p pre]; [|exists []; reflexivity]. cbn [esc_of andb app]. destruct a0; [|exists []; reflexivity].
+  rewrite (plain_segs_later sty a0 false r). destruct pre as [|c pre]; [|exists []; reflexivity]. cbn [esc_of andb app]. destruct a0; [|exists []; reflexivity].
   unfold kept. cbn [orb]. destruct (negb (recognised sty t)); [exists []; reflexivity|]. exists (raw_text t). now rewrite <- app_assoc.
 Qed.
-Theorem plain_of_a0_le sty a0 x : length (plain_of sty false x) <= length (plain_of sty a0 x).
-Proof. unfold plain_of. destruct (wout_a0 sty a0 (fold_left lex_step x lex_init)) as [y ->]. apply unescape_suffix_le. Qed.
-
+Theorem render_a0_le p sty a0 x : length (render p sty false x) <= length (render p sty a0 x).
+Proof. unfold render, wout_of. destruct (wout_a0 sty a0 (fold_left lex_step x lex_init)) as [y ->]. apply pu_suffix_le. Qed.
 (* a text put between blanks and more text: the rendering is at most the blanks, the rendering of the text on its own
    (whatever its position-0 rule says) and the rest *)
-Theorem plain_of_context_le sty a0 t label post : Forall inert t ->
-  length (plain_of sty false (t ++ label ++ post)) <= length t + length (plain_of sty a0 label) + length post.
+Theorem render_context_le p sty a0 t label rest : Forall inert t ->
+  length (render p sty false (t ++ label ++ rest)) <= length t + length (render p sty a0 label) + length rest.
 Proof.
-  intros Ht. rewrite plain_of_inert_prefix by exact Ht. rewrite app_length.
-  pose proof (plain_of_app_le sty false label post). pose proof (plain_of_a0_le sty a0 label). lia.
+  intros Ht. rewrite render_inert_prefix by exact Ht. rewrite app_length.
+  pose proof (render_app_le p sty false label rest). pose proof (render_a0_le p sty a0 label). lia.
+Qed.
+
+(* ---- the plain rendering: the instances ---- *)
+Theorem plain_of_sep sty a0 a sep b : inert sep ->
+  plain_of sty a0 (a ++ sep :: b) = plain_of sty a0 a ++ sep :: plain_of sty false b.
+Proof. exact (render_sep post_unescape sty a0 a sep b). Qed.
+Lemma plain_of_snoc sty a0 a sep : inert sep -> plain_of sty a0 (a ++ [sep]) = plain_of sty a0 a ++ [sep].
+Proof. exact (render_snoc post_unescape sty a0 a sep). Qed.
+Theorem plain_of_lines sty m : split_on NL (plain_of sty false m) = map (plain_of sty false) (split_on NL m).
+Proof. exact (render_lines post_unescape sty m). Qed.
+Theorem plain_of_le sty a0 x : length (plain_of sty a0 x) <= length x.
+Proof. exact (render_le post_unescape sty a0 x). Qed.
+Theorem plain_of_app_le sty a0 x y : length (plain_of sty a0 (x ++ y)) <= length (plain_of sty a0 x) + length y.
+Proof. exact (render_app_le post_unescape sty a0 x y). Qed.
+Theorem plain_of_a0_le sty a0 x : length (plain_of sty false x) <= length (plain_of sty a0 x).
+Proof. exact (render_a0_le post_unescape sty a0 x). Qed.
+
+(* ================= F. the decorated rendering: its visible text is a deletion of the undecorated output before
+   unescape ================= *)
+(* pieces: SGR codes and text; decorated, each non-empty text is wrapped in its codes *)
+Definition piece : Type := (list N * str)%type.
+Definition dec_piece (x : piece) : str := match snd x with [] => [] | _ => sgr_wrap (fst x) (snd x) end.
+Definition dec (ps : list piece) : str := flat_map dec_piece ps.
+Definition und (ps : list piece) : str := flat_map (@snd (list N) str) ps.
+Lemma apply_cur_dec sk x : apply_cur true sk x = dec_piece (codes_of (current sk), x).
+Proof. destruct x; reflexivity. Qed.
+
+Lemma ends_bsl_snoc x : ends_with_bsl x = true -> exists x', x = x' ++ [BSL].
+Proof.
+  unfold ends_with_bsl. destruct (rev x) as [|c r] eqn:E; [discriminate|]. intros H. apply N.eqb_eq in H. subst c.
+  exists (rev r). rewrite <- (rev_involutive x), E. reflexivity.
+Qed.
+Lemma sgr_close_ends x : ends_with_bsl (x ++ sgr_close) = false.
+Proof. now rewrite ends_app. Qed.
+Lemma unescape_wrapped codes x rest : codes <> [] ->
+  unescape (sgr_wrap codes x ++ rest) = sgr_open codes ++ unescape x ++ sgr_close ++ unescape rest.
+Proof.
+  intros Hc. unfold sgr_wrap. destruct codes as [|c l]; [contradiction|].
+  rewrite <- !app_assoc. rewrite (unescape_app_l _ _ (sgr_open_ends (c :: l))), (unescape_id _ (sgr_open_no_bsl (c :: l))).
+  f_equal. rewrite unescape_app_r by (cbn; discriminate). f_equal.
+  change (sgr_close ++ rest) with (ESC :: 91%N :: 48%N :: 109%N :: rest).
+  rewrite !unescape_head by discriminate. reflexivity.
+Qed.
+
+Theorem dec_visible : forall ps, Forall (fun x : piece => no_esc (snd x)) ps ->
+  exists v, strips (unescape (dec ps)) v /\ deletes (und ps) v.
+Proof.
+  induction ps as [|[cs x] ps IH]; intros H; [exists []; split; [apply strips_nil|constructor]|].
+  inversion H as [|? ? Hx Hps]; subst. cbn [snd] in Hx. destruct (IH Hps) as (v' & Sv & Dv).
+  unfold dec, und. cbn [flat_map]. fold (dec ps). fold (und ps). unfold dec_piece. cbn [fst snd].
+  destruct x as [|c0 x0] eqn:Ex; [exists v'; auto|]. rewrite <- Ex in *. clear Ex c0 x0.
+  assert (Hux : no_esc (unescape x)) by (apply unescape_P, Hx).
+  destruct cs as [|c l].
+  - (* no codes: the text is written as it is, and may end with the backslash of a pair *)
+    cbn [sgr_wrap].
+    assert (Hplain : unescape (x ++ dec ps) = unescape x ++ unescape (dec ps) ->
+              exists v, strips (unescape (x ++ dec ps)) v /\ deletes (x ++ und ps) v).
+    { intros ->. exists (unescape x ++ v'). split; [apply strips_app; [apply strips_text, Hux|exact Sv]|].
+      apply deletes_app; [apply deletes_unescape|exact Dv]. }
+    destruct (ends_with_bsl x) eqn:Eb; [|apply Hplain, unescape_app_l, Eb].
+    destruct (dec ps) as [|d D] eqn:ED; [apply Hplain, unescape_app_r; exact I|].
+    destruct (N.eqb_spec d LT) as [->|Hd]; [|apply Hplain, unescape_app_r; exact Hd].
+    destruct (ends_bsl_snoc x Eb) as [x' ->].
+    assert (Hx' : no_esc x') by (apply Forall_app in Hx; tauto).
+    exists (unescape x' ++ v'). split.
+    + rewrite <- app_assoc. cbn [app]. rewrite unescape_app_r by (cbn; discriminate).
+      rewrite unescape_cons2. change (N.eqb BSL BSL && N.eqb LT LT) with true. cbv iota.
+      rewrite (unescape_head LT D LT_not_BSL) in Sv.
+      apply strips_app; [apply strips_text, unescape_P, Hx'|exact Sv].
+    + apply deletes_app; [|exact Dv]. eapply deletes_trans; [apply deletes_tail; constructor; [discriminate|constructor]|apply deletes_unescape].
+  - rewrite unescape_wrapped by discriminate.
+    exists ([] ++ unescape x ++ [] ++ v'). split.
+    + apply strips_app; [apply strips_open|]. apply strips_app; [apply strips_text, Hux|]. apply strips_app; [apply strips_close|exact Sv].
+    + cbn [app]. apply deletes_app; [apply deletes_unescape|exact Dv].
+Qed.
+
+Lemma dec_app a b : dec (a ++ b) = dec a ++ dec b. Proof. apply flat_map_app. Qed.
+Lemma und_app a b : und (a ++ b) = und a ++ und b. Proof. apply flat_map_app. Qed.
+
+(* the decorated run over the tags: the same stack and flag as the undecorated run, the output made of pieces whose texts are the
+   undecorated output *)
+Lemma run_segs_pieces sty a0 : forall segs sk out first le s r l,
+  run_segs sty true a0 first segs sk out le = Ok (s, r, l) ->
+  exists ps, r = out ++ dec ps /\ und ps = plain_segs sty a0 first segs
+    /\ (Forall (segP (fun c : N => c <> ESC)) segs -> Forall (fun x : piece => no_esc (snd x)) ps)
+    /\ forall out2, run_segs sty false a0 first segs sk out2 le = Ok (s, out2 ++ plain_segs sty a0 first segs, l).
+Proof.
+  induction segs as [|[pre [raw cl nm]] rest IH]; intros sk out first le s r l H; cbn [run_segs plain_segs] in *.
+  - injection H as <- <- <-. exists []. cbn. rewrite !app_nil_r. repeat split; auto. intros out2. now rewrite app_nil_r.
+  - fold (esc_of a0 first pre) in *. set (e := esc_of a0 first pre) in *.
+    pose proof (do_tag_lockstep sty e raw cl nm sk) as HT.
+    destruct (do_tag sty true e (Tag raw cl nm) sk) as [[s1 p1]|k1] eqn:E1; [|discriminate].
+    destruct (do_tag sty false e (Tag raw cl nm) sk) as [[s2 p2]|k2] eqn:E2; [|contradiction]. destruct HT as [<- HT].
+    cbn [bind fst snd] in *. pose proof (do_tag_plain _ _ _ _ _ _ E2) as Ek.
+    apply IH in H. destruct H as (ps & -> & Hu & Hn & Hf).
+    assert (Ep : p1 = dec_piece (codes_of (current sk), p2)).
+    { destruct HT; [reflexivity|]. rewrite apply_cur_false. apply apply_cur_dec. }
+    exists ((codes_of (current sk), pre) :: (codes_of (current sk), p2) :: ps). split; [|split; [|split]].
+    + unfold dec. cbn [flat_map]. fold (dec ps). rewrite <- apply_cur_dec, <- Ep, <- !app_assoc. reflexivity.
+    + unfold und. cbn [flat_map snd]. fold (und ps). rewrite Hu, Ek. reflexivity.
+    + intros Hs. inversion Hs as [|? ? [Hpre Hraw] Hr]; subst. cbn [fst snd tagP] in *.
+      constructor; [exact Hpre|]. constructor; [|apply Hn, Hr]. cbn [snd].
+      destruct HT; [constructor|]. rewrite apply_cur_false. exact Hraw.
+    + intros out2. rewrite Hf, apply_cur_false, Ek, <- !app_assoc. reflexivity.
+Qed.
+
+(* For EVERY style table, stack and ESC-free message: the decorated colorize succeeds exactly when the undecorated one
+   does, with the same stack; its visible text (v: the output with the SGR sequences removed) is obtained from the
+   undecorated output before unescape by deleting characters other than the line break. *)
+Theorem colorize_visible sty sk m sk' o1 : no_esc m -> colorize sty true sk m = Ok (sk', o1) ->
+  colorize sty false sk m = Ok (sk', plain_of sty (ends_with_bsl m) m)
+  /\ exists v, strips o1 v /\ deletes (wout_of sty (ends_with_bsl m) m) v.
+Proof.
+  intros Hm. unfold colorize, plain_of, wout_of, wout. pose proof (lex_lossless m) as HL.
+  destruct (lex_P (fun c => c <> ESC) m Hm) as [Hsegs Htail]. unfold lex, lex_end in *.
+  set (st := fold_left lex_step m lex_init) in *. cbn [fst snd] in *.
+  destruct (l_done st) as [|sg segs] eqn:Ed.
+  - intros H. injection H as <- <-. cbn [flat_map plain_segs app] in *. rewrite HL. split; [reflexivity|].
+    exists (unescape m). split; [apply strips_text, unescape_P, Hm|apply deletes_unescape].
+  - rewrite <- Ed in *. clear Ed.
+    destruct (run_segs sty true (ends_with_bsl m) true (l_done st) sk [] false) as [[[sk1 r1] le]|k] eqn:ER; [|discriminate].
+    cbn [bind]. intros H. injection H as <- <-.
+    destruct (run_segs_pieces _ _ _ _ _ _ _ _ _ _ ER) as (ps & -> & Hu & Hn & Hf). rewrite (Hf []). cbn [bind app].
+    set (tail := l_cur st ++ raw_of (l_cand st)) in *.
+    set (t1 := removelast tail). set (t2 := match rev tail with c :: _ => [c] | [] => [] end).
+    split.
+    { f_equal. f_equal. f_equal. f_equal. destruct le; rewrite !apply_cur_false; [reflexivity|apply removelast_lastchar]. }
+    set (cs := codes_of (current sk1)).
+    set (tps := if le then [(cs, tail)] else [(cs, t1); (cs, t2)] : list piece).
+    assert (Eu : und tps = tail).
+    { subst tps. destruct le; unfold und; cbn [flat_map snd]; rewrite ?app_nil_r; [reflexivity|apply removelast_lastchar]. }
+    match goal with |- context [unescape (dec ps ++ ?X)] => replace X with (dec tps) end.
+    2:{ subst tps. destruct le; unfold dec; cbn [flat_map]; rewrite !apply_cur_dec, ?app_nil_r; reflexivity. }
+    rewrite <- dec_app. destruct (dec_visible (ps ++ tps)) as (v & Sv & Dv).
+    { apply Forall_app. split; [apply Hn, Hsegs|]. subst tps.
+      destruct le; repeat constructor; cbn [snd]; [exact Htail|apply removelast_P, Htail|apply lastchar_P, Htail]. }
+    exists v. split; [exact Sv|]. rewrite und_app, Hu, Eu in Dv. exact Dv.
 Qed.
